@@ -61,6 +61,7 @@ package ledger
 //@   modifies writes, transaction
 //@   ensures writes == store(old(writes), s, old(writes)[s] + 1)
 //@   ensures transaction.Postings == old(transaction.Postings) && transaction.Metadata == old(transaction.Metadata) && transaction.Timestamp == old(transaction.Timestamp) && transaction.Reference == old(transaction.Reference)
+//@   ensures err == nil ==> transaction.ID != nil
 
 //@ assumed func (s Store) RevertTransaction(ctx context.Context, id uint64, at time.Time) (tx *ledger.Transaction, modified bool, err error)
 //@   modifies writes, lastRevertModified
@@ -441,3 +442,11 @@ package ledger
 //@   loop 6:
 //@     index k
 //@     mention txData.Postings[k]
+
+// ---- import (C38): logs decoded from the request body are client data; a malformed one must not panic ----
+
+//@ func (ctrl *DefaultController) importLog(ctx context.Context, store Store, log ledger.Log) (err error)
+//@   property C38 C07
+//@   requires log.ID != nil
+//@   modifies writes, logs, lastRevertModified
+//@   ensures forall h Store :: {writes[h]} {old(writes)[h]} h != store ==> writes[h] == old(writes)[h]
